@@ -508,11 +508,8 @@ Definition is_end_type (t : N) : bool :=
 Section Xlsb.
 Variable show_f64 : N -> list N.
 
-(* C14's decoder model still has the panic sites of the old parse_formula; the hardening turned
-   all of them into errors (check_len / get / checked_sub) *)
-Definition ptg_bridge (o : outcome str) : outcome str :=
-  match o with Panic => Err E_UNREC | x => x end.
-
+(* parse_formula is C14's decoder model (Ptg.v, resynced to the hardened code: check_len / get /
+   checked_sub, no panic site left: Ptg_total.no_panic_parse_formula_xlsb) *)
 (* the BrtName arm on the record body *)
 Definition brt_name (d : bytes) (ext : list str) (names : list (str * str))
   : outcome (str * str) :=
@@ -524,7 +521,7 @@ Definition brt_name (d : bytes) (ext : list str) (names : list (str * str))
   do rl <- read_u32 (drop (9 + sl) d);
   if n <? 13 + sl + rl then Err E_UNREC else
   let rgce := take rl (drop (13 + sl) d) in
-  do f <- ptg_bridge (Ptg.xlsb_parse_formula show_f64 (Ptg.Build_xlsb_env ext (map fst names)) rgce);
+  do f <- Ptg.xlsb_parse_formula show_f64 (Ptg.Build_xlsb_env ext (map fst names)) rgce;
   Ok (name, f).
 
 (* second loop: BrtExternSheet, BrtName, up to one of the records that follow the names *)
@@ -637,14 +634,15 @@ Definition xls_defined_name (rgce : bytes) : outcome (option N * str) :=
   end.
 
 (* the Lbl arm *)
-Definition xls_lbl (d : bytes) : outcome (str * (option N * str)) :=
+Definition xls_lbl (d : bytes) : outcome (str * (option N * str) * bytes) :=
   if len d <? 14 then Err E_LEN_ else
   let cch := nth 3 d 0 in
   do cce <- read_u16 (drop 4 d);
   if len d <? 14 + cce then Err E_LEN_ else
   let name := read_ustr_nocch (drop 14 d) cch in
-  do f <- xls_defined_name (drop (len d - cce) d);
-  Ok (name, f).
+  let rgce := drop (len d - cce) d in
+  do f <- xls_defined_name rgce;
+  Ok (name, f, rgce).              (* defined_names.push((name, formula, rgce.to_vec())) *)
 
 Definition xls_xti (c : bytes) : outcome (N * N * N) :=
   do a <- read_u16 c;
@@ -660,7 +658,7 @@ Definition bof_is_biff8 (v dt : N) : bool :=
 
 Record xls_state : Type := mkXlsState {
   xg_sheets : list (N * meta);
-  xg_names : list (str * (option N * str));
+  xg_names : list (str * (option N * str) * bytes);   (* name, first-token rendering, rgce *)
   xg_xtis : list (N * N * N);
   xg_1904 : bool
 }.
@@ -724,19 +722,41 @@ Definition xls_sheet_of (st : xls_state) (i : N) : str :=
   | None => s_ref
   end.
 
-Definition xls_resolve (st : xls_state) : list (str * str) :=
-  map (fun nf =>
-         match fst (snd nf) with
-         | Some i => (fst nf, xls_sheet_of st i ++ [BANG] ++ snd (snd nf))
-         | None => (fst nf, snd (snd nf))
-         end) (xg_names st).
+(* after the loop (commit "xls defined names other than a single 3-D reference …"): the whole
+   formula goes through the cell-formula decoder, with the names of every Lbl record at hand;
+   what parse_formula rejects keeps the rendering of its first token:
+     let mut cpf = (rgce.len() as u16).to_le_bytes().to_vec(); cpf.extend_from_slice(&rgce);
+     if let Ok(full) = parse_formula(&cpf, &fmla_sheet_names, &lbl_names, &xtis, &encoding) { return (name, full) } *)
+Definition xls_formula_env (st : xls_state) : Ptg.xls_env :=
+  Ptg.Build_xls_env (map (fun pm => m_name (snd pm)) (xg_sheets st))
+                    (map (fun nf => fst (fst nf)) (xg_names st)) (xg_xtis st).
+
+Definition xls_first_token_text (st : xls_state) (f : option N * str) : str :=
+  match fst f with
+  | Some i => xls_sheet_of st i ++ [BANG] ++ snd f
+  | None => snd f
+  end.
+
+Definition xls_resolve_one (show_f64 : N -> list N) (st : xls_state) (nf : str * (option N * str) * bytes)
+  : outcome (str * str) :=
+  let rgce := snd nf in
+  match Ptg.xls_parse_formula show_f64 (xls_formula_env st) (le16 (len rgce) ++ rgce) with
+  | Ok full => Ok (fst (fst nf), full)
+  | Err _ => Ok (fst (fst nf), xls_first_token_text st (snd (fst nf)))
+  | Panic => Panic
+  | OutOfFuel => OutOfFuel
+  end.
+
+Definition xls_resolve (show_f64 : N -> list N) (st : xls_state) : outcome (list (str * str)) :=
+  map_o (xls_resolve_one show_f64 st) (xg_names st).
 
 (* parse_workbook as far as metadata goes; of the sheet loop only `&stream[pos..]` is kept (the
    substreams themselves are C02's domain and assumed well formed) *)
-Definition xls_parse_workbook (stream : bytes) : outcome parsed :=
+Definition xls_parse_workbook (show_f64 : N -> list N) (stream : bytes) : outcome parsed :=
   do st <- xls_globals (records stream) xls_state0;
+  do names <- xls_resolve show_f64 st;
   if existsb (fun pm => len stream <? fst pm) (xg_sheets st) then Err E_EOS_ else
-  Ok (mkParsed (map snd (xg_sheets st)) [] (xls_resolve st) (xg_1904 st)).
+  Ok (mkParsed (map snd (xg_sheets st)) [] names (xg_1904 st)).
 
 (* ===================================================================================== *)
 (** * ods *)
